@@ -8,4 +8,4 @@ CONSTANTS
   Horizon = 5
 VIEW MCView
 CHECK_DEADLOCK FALSE
-INVARIANTS QueueLedger AtMostOnce Account DrainedAccepts NeverStale NatView
+INVARIANTS QueueLedger AtMostOnce Account DrainedAccepts NeverStale NatView TakenOnce
